@@ -24,6 +24,7 @@ package goose
 //@   ensures r == 34 ==> result == contains(s, "\"")
 //@ assume func strconv.Unquote (s)
 //@   ensures result.1 == nil
+//@   ensures [a function of its argument] result.0 == pure(string, "strconv.Unquote", s)
 
 //@ axiom [ast] assign_nonempty: forall s *ast.AssignStmt :: len(s.Lhs) >= 1 && len(s.Rhs) >= 1
 //@ axiom [ast] valuespec_named: forall v *ast.ValueSpec :: len(v.Names) >= 1
@@ -84,6 +85,7 @@ package goose
 //@   requires [literal is a string] lit.Kind == token.STRING
 //@   may_reject
 //@   noframe
+//@   ensures [the value is the unquoted source text] result == pure(string, "strconv.Unquote", lit.Value)
 //@ func (*cursor).Next (c)
 //@   requires [cursor is not empty] len(c.Stmts) > 0
 //@   may_reject
@@ -112,6 +114,7 @@ package goose
 //@   ensures [at most one Require per import] len(result) <= len(d)
 //@   loop 1 invariant [imports so far are not renamed] forall i int :: 0 <= i && i <= rangeindex ==> d[i].(*ast.ImportSpec).Name == nil
 //@   loop 1 invariant [at most one Require per import so far] len(decls) <= rangeindex + 1
+//@   loop 1 invariant [isolated req: C08 an import that is not builtin has just been given a Require for its path] rangeindex >= 0 && !builtinImports[pure(string, "strconv.Unquote", d[rangeindex].(*ast.ImportSpec).Path.Value)] ==> len(decls) > 0 && decls[len(decls)-1].(coq.ImportDecl).Path == pure(string, "strconv.Unquote", d[rangeindex].(*ast.ImportSpec).Path.Value)
 
 // ---- syntactic guards: returning normally implies the construct has a supported shape (C02) -----
 
